@@ -25,28 +25,28 @@ type Gen struct {
 
 // typical string values MOSN validates; key "<Type>.<json>"
 var stringTyp = map[string][2]string{ // typ, bound ("" = same rule as default)
-	"Listener.type":                    {"ingress", "egress"},
-	"Listener.network":                 {"tcp", "udp"},
-	"Listener.use_original_dst":        {"redirect", "tproxy"},
-	"Listener.name":                    {"L", "L-b"},
-	"Cluster.dns_lookup_family":        {"V4_ONLY", "V6_ONLY"},
-	"RouterMatch.regex":                {"^/v_.*$", "^/(a|b)\\d+\"x$"},
-	"PatternConfig.regex":              {"^/v_(.*)$", "^/(a|b)\\d+$"},
-	"RouteAction.cluster_name":         {"C", "C"},
-	"RedirectAction.scheme_redirect":   {"https", "http"},
-	"ClusterWeight.name":               {"C", "C"},
-	"RequestMirrorPolicy.cluster":      {"C", "C"},
-	"DslExpressionMatcher.expression":  {"conditional((request.method == \"POST\"),true,false)", "conditional((request.method == \"GET\"),true,false)"},
-	"VariableMatcher.name":             {"x-mosn-host", "x-mosn-path"},
-	"VariableMatcher.model":            {"and", "or"},
-	"HealthCheck.protocol":             {"Http1", "v_protocol"},
-	"TLSConfig.min_version":            {"TLSv1_2", "TLS_AUTO"},
-	"TLSConfig.max_version":            {"TLSv1_3", "TLS_AUTO"},
-	"SlowStartConfig.mode":             {"duration", "duration"},
-	"ServerConfig.default_log_level":   {"ERROR", "WARN"},
-	"SocketAddress.address":            {"127.0.0.1", "0.0.0.0"},
-	"RouteAction.upstream_protocol":    {"Http1", "Http2"},
-	"TracingConfig.driver":             {"SOFATracer", "v_driver"},
+	"Listener.type":                     {"ingress", "egress"},
+	"Listener.network":                  {"tcp", "udp"},
+	"Listener.use_original_dst":         {"redirect", "tproxy"},
+	"Listener.name":                     {"L", "L-b"},
+	"Cluster.dns_lookup_family":         {"V4_ONLY", "V6_ONLY"},
+	"RouterMatch.regex":                 {"^/v_.*$", "^/(a|b)\\d+\"x$"},
+	"PatternConfig.regex":               {"^/v_(.*)$", "^/(a|b)\\d+$"},
+	"RouteAction.cluster_name":          {"C", "C"},
+	"RedirectAction.scheme_redirect":    {"https", "http"},
+	"ClusterWeight.name":                {"C", "C"},
+	"RequestMirrorPolicy.cluster":       {"C", "C"},
+	"DslExpressionMatcher.expression":   {"conditional((request.method == \"POST\"),true,false)", "conditional((request.method == \"GET\"),true,false)"},
+	"VariableMatcher.name":              {"x-mosn-host", "x-mosn-path"},
+	"VariableMatcher.model":             {"and", "or"},
+	"HealthCheck.protocol":              {"Http1", "v_protocol"},
+	"TLSConfig.min_version":             {"TLSv1_2", "TLS_AUTO"},
+	"TLSConfig.max_version":             {"TLSv1_3", "TLS_AUTO"},
+	"SlowStartConfig.mode":              {"duration", "duration"},
+	"ServerConfig.default_log_level":    {"ERROR", "WARN"},
+	"SocketAddress.address":             {"127.0.0.1", "0.0.0.0"},
+	"RouteAction.upstream_protocol":     {"Http1", "Http2"},
+	"TracingConfig.driver":              {"SOFATracer", "v_driver"},
 	"HashPolicy.v_placeholder_not_used": {"", ""},
 }
 
